@@ -821,6 +821,7 @@ func cmdMin(args []string) {
 		func(q *Plan) { q.NumCPU = 0 },
 		func(q *Plan) { q.Slab = false },
 		func(q *Plan) { q.LoudObs = false },
+		func(q *Plan) { q.AliasArgs = false },
 	} {
 		q := clonePlan(last)
 		f(q)
@@ -936,7 +937,7 @@ func compactPlan(p *Plan) *Plan {
 			if op.C >= 0 {
 				used[op.C] = true
 			}
-			if op.D >= 0 && op.K != kExtra {
+			if op.D >= 0 && op.K != kExtra && op.K != kErrStr {
 				used[op.D] = true
 			}
 		}
@@ -963,7 +964,7 @@ func compactPlan(p *Plan) *Plan {
 			if op.C >= 0 {
 				op.C = cellMap[op.C]
 			}
-			if op.D >= 0 && op.K != kExtra {
+			if op.D >= 0 && op.K != kExtra && op.K != kErrStr {
 				op.D = cellMap[op.D]
 			}
 		}
